@@ -3,6 +3,8 @@
 fn main() {
     println!("cargo:rerun-if-env-changed=VERIF_LINK_FILE");
     println!("cargo:rerun-if-env-changed=VERIF_GEN_DIR");
+    let dir = std::env::var("VERIF_GEN_DIR").expect("VERIF_GEN_DIR");
+    println!("cargo:rerun-if-changed={dir}/registry.rs");
     if let Ok(path) = std::env::var("VERIF_LINK_FILE") {
         println!("cargo:rerun-if-changed={path}");
         if let Ok(text) = std::fs::read_to_string(&path) {
